@@ -229,7 +229,8 @@ class PageCache(Entity):
         Returns the number of pages flushed.
         """
         flushed = 0
-        for page in self._pages.values():
+        # snapshot: pages may be loaded or evicted by other processes while a write-back is in flight
+        for page in list(self._pages.values()):
             if page.dirty:
                 yield self._disk_write_latency_s
                 page.dirty = False
